@@ -937,6 +937,7 @@ impl<'a> Socket<'a> {
         self.ack_delay_timer = AckDelayTimer::Idle;
         self.challenge_ack_timer = Instant::from_secs(0);
         self.syn_unacked_in_fin_wait = false;
+        self.pending_fast_retransmit = false;
 
         #[cfg(feature = "async")]
         {
@@ -2566,6 +2567,11 @@ impl<'a> Socket<'a> {
 
                 // Inform RTTE, so that it can can handle RTO backoff
                 self.rtte.on_rto();
+
+                // Everything is resent from SND.UNA anyway: a fast retransmit that is still
+                // pending (it had to wait for the remote window) is superseded. Keeping it
+                // would re-arm this timer below for ever instead of probing a closed window.
+                self.pending_fast_retransmit = false;
             } else {
                 // If a fast rentrasmit timer expired, we should resend only the earliest unAcked segment
                 net_debug!("retransmitting for fast-retransmit");
